@@ -113,7 +113,7 @@ def default_exp(orc, rate, frame):
 class Oracle(object):
     """Stands in for `random`, `np.random`, `heapq` and user call-back tables."""
 
-    def __init__(self, prefix=(), exp=None, close_loops=True, ctx=None):
+    def __init__(self, prefix=(), exp=None, close_loops=True, ctx=None, zero_draws=False):
         self.prefix = prefix
         self.trace = []      # (kind, probs, chosen, info)
         self.marks = []      # (trace_index, tag, payload...)  event boundaries etc.
@@ -125,6 +125,9 @@ class Oracle(object):
         self.ctx = ctx if ctx is not None else {}
         self.n_exp = 0
         self.steps = 0
+        # zero_draws: every uniform draw first branches on the probability-zero but legal outcome
+        # "exactly 0.0" (random.random() returns values in [0,1)); used where a property says *never*
+        self.zero_draws = zero_draws
 
     def _tick(self):
         self.steps += 1
@@ -161,6 +164,11 @@ class Oracle(object):
     # ---- `random` module API --------------------------------------------------------
     def random(self):
         self._tick()
+        if self.zero_draws:
+            if self.choose("U0", (1.0, 0.0)) == 1:
+                if self._lc is not None:
+                    self._lc[4] += 1
+                return 0.0
         return U(self, [0.0, 1.0])
 
     def _split(self, cell, thr):
@@ -211,7 +219,9 @@ class Oracle(object):
             raise ValueError("Sample larger than population or is negative")
         outs = list(itertools.permutations(range(n), k))
         c = self.choose("sample", (1.0 / len(outs),) * len(outs), (n, k))
-        return [pop[i] for i in outs[c]]
+        res = [pop[i] for i in outs[c]]
+        self.log.append(("sample", list(pop), list(res)))
+        return res
 
     def expovariate(self, rate):
         self._tick()
@@ -315,9 +325,9 @@ class Run(object):
         return p
 
 
-def run_once(sim, fn, prefix, exp=None, close_loops=True, heap=True):
+def run_once(sim, fn, prefix, exp=None, close_loops=True, heap=True, zero_draws=False):
     """One execution of the real code under the oracle.  fn(orc) -> output."""
-    orc = Oracle(prefix, exp=exp, close_loops=close_loops)
+    orc = Oracle(prefix, exp=exp, close_loops=close_loops, zero_draws=zero_draws)
     r = Run()
     r.out = None; r.exc = None; r.cut = None
     with seams(sim, orc, heap=heap):
@@ -374,19 +384,19 @@ def run_sig(r):
 
 
 def explore(sim, fn, exp=None, cap=200000, close_loops=True, heap=True, selfcheck=64,
-            stats=None):
+            stats=None, zero_draws=False):
     """Stateless exhaustive DFS over all choice sequences of fn.  Yields every Run.
     Raises CapHit when more than `cap` executions would be needed."""
     stack = [()]
     n = 0
     while stack:
         prefix = stack.pop()
-        r = run_once(sim, fn, prefix, exp=exp, close_loops=close_loops, heap=heap)
+        r = run_once(sim, fn, prefix, exp=exp, close_loops=close_loops, heap=heap, zero_draws=zero_draws)
         n += 1
         if n > cap:
             raise CapHit("execution cap %d exceeded" % cap)
         if selfcheck and n % selfcheck == 1:
-            r2 = run_once(sim, fn, prefix, exp=exp, close_loops=close_loops, heap=heap)
+            r2 = run_once(sim, fn, prefix, exp=exp, close_loops=close_loops, heap=heap, zero_draws=zero_draws)
             if run_sig(r) != run_sig(r2):
                 raise HarnessError("nondeterminism: the same choice sequence gave two different executions: %r"
                                    % (prefix,))
@@ -456,11 +466,14 @@ def segments(runs, tag="exp", end_label=lambda r: ("END",)):
                     acc[lf] = acc.get(lf, 0.0) + probs[c] * p
             q = acc.pop(("LOOP", depth), 0.0)
             if q > 0:
-                if q >= 1 - 1e-12:
-                    acc[("LIVELOCK",)] = 1.0
+                # geometric series: renormalise by the non-loop mass (summed directly - computing it as
+                # 1-q cancels catastrophically when the acceptance probability is tiny)
+                rest = sum(acc.values())
+                if rest <= 0:
+                    acc = {("LIVELOCK",): 1.0}
                 else:
                     for lf in acc:
-                        acc[lf] /= (1 - q)
+                        acc[lf] /= rest
             return acc
         s = Segment()
         s.prefix = pre; s.ordinal = j; s.state = state; s.rate = rate
@@ -494,10 +507,11 @@ def outcome_dist(runs, label):
                 acc[lf] = acc.get(lf, 0.0) + probs[c] * p
         q = acc.pop(("LOOP", depth), 0.0)
         if q > 0:
-            if q >= 1 - 1e-12:
+            rest = sum(acc.values())      # non-loop mass, summed directly (no 1-q cancellation)
+            if rest <= 0:
                 return {("LIVELOCK",): 1.0}
             for lf in acc:
-                acc[lf] /= (1 - q)
+                acc[lf] /= rest
         return acc
     out = {}
     for lf, p in val(root, 0).items():
